@@ -28,6 +28,16 @@ CHECKS = {
             "The complete single-point mutant set of every canonical request (7 operations x every control kind, control values opened up) in both tiers and the complete double-point set (about 5*10^7 streams) in the thorough tier are pushed through (*conn).readRequest via the verif hook with no recover in between; any panic is a violation fingerprinted by panicking gldap function + panic class. rapid adds mutation chains over generated requests, go test -fuzz adds coverage-guided byte streams, and a TCP part re-confirms against a live server by looking for the connection-level recover's log record. Exhaustive only over the stated mutation space; beyond it exploration.",
             "trusts Go's recover to observe panics; VerifDecodeStream builds a conn over an in-memory reader and calls the same readRequest the read loop calls (hook reviewed, add-only); asn1-ber's own robustness is out of scope (length cap 1 MiB, inputs <= 64 KiB)",
             "DESIGN.md §4 C02"),
+    "C05": ("exploration",
+            "property-based scenario testing (rapid): N concurrent writers on one connection released by a barrier, strict incremental parse of the received stream + multiset/per-writer-order oracle; same scenarios under the Go race detector",
+            "Generated scenarios (2..300 writers, frame sizes around the 4096-byte bufio boundary and up to 70 KB, plain/TLS/StartTLS, eager/late/slow reader, GOMAXPROCS 1..16) run against a live server; the client parses the byte stream strictly with the independent codec (any torn or merged frame is a parse or identity error), compares the multiset of frames with the writes that returned nil and checks per-writer order. The harness owns the start of the race (barrier) but not the Go scheduler: found violations are real, absence is not shown.",
+            "trusts the independent stream parser and the race detector; a per-ResponseWriter bufio.Writer would not be flagged (kernel/tls write locks keep frames whole), see DESIGN.md",
+            "DESIGN.md §4 C05"),
+    "C06": ("exploration",
+            "property-based scenario testing (rapid): pipelines with a generated wait-for-later-request dependency graph; completion + numbering oracle, deadlock verdict backed by a stable goroutine census",
+            "1..8 connections pipeline 1..256 requests whose handlers block until a LATER request (same connection, incl. the fully reversed chain, or another connection) has entered its handler; a correct dispatcher always completes, a serial or globally locked one deadlocks. Request.ID must equal the arrival position and ConnectionID must be stable per connection and distinct across connections. A missed bound counts only with two identical goroutine censuses 0.5 s apart (otherwise inconclusive).",
+            "liveness is decided as a bounded wait (15 s against a normal few ms) plus stable-census evidence",
+            "DESIGN.md §4 C06"),
     "C14": ("exploration",
             "property-based round-trip testing (rapid) of controls in both directions with three independent encoders / two independent decoders; constructor law for the Behera control",
             "Request direction: 0..6 generated controls per message, each encoded by the harness's RFC-shape encoder, by gldap's own Encode or by go-ldap's Encode, decoded by the server's request path and compared field by field (type, criticality, page size, cookie, expire, grace, error + string, value) in order. Response direction: controls built with the exported constructors, written on Bind/SearchDone responses by a real handler, recovered by the harness's strict parser and by go-ldap's DecodeControl. Constructor: every subset/order of the three Behera options, error or at most one set and error <= 8. Exploration.",
